@@ -155,17 +155,22 @@ void harness(void)
         }
     } else if (opc == 0x0e && len >= 5 && (len & 1)) {               /* ---------------- Read Multiple */
         expect_unchanged();
-        unsigned pos = 1; int failed = 0;
+        /* the first handle that is invalid or not readable decides: Error Response naming it; otherwise the concatenation */
+        int failed = 0;
         for (size_t k = 1; k + 1 < len && !failed; k += 2) {
             uint16_t hk = (uint16_t)(in[k] | (in[k + 1] << 8));
             if (hk < 1 || hk > NATTR) { expect_error(hk, 0x01); failed = 1; }
             else if (!T[hk].readable) { expect_error(hk, 0x02); failed = 1; }
-            else {
+        }
+        if (!failed) {
+            unsigned pos = 1;
+            for (size_t k = 1; k + 1 < len; k += 2) {
+                uint16_t hk = (uint16_t)(in[k] | (in[k + 1] << 8));
                 for (int i = 0; i < T[hk].len && pos < MTU; ++i, ++pos)
                     CHECK(os > pos && out[pos] == attr_byte(hk, i), "Read Multiple Response concatenates the current values");
             }
+            CHECK(os == pos && out[0] == 0x0f, "Read Multiple Response has the size of the concatenated values truncated to the MTU");
         }
-        if (!failed) CHECK(os == pos && out[0] == 0x0f, "Read Multiple Response has the size of the concatenated values truncated to the MTU");
     } else if (opc == 0x08 && len == 7) {                            /* ---------------- Read By Type (permission path only, discovery: C02) */
         expect_unchanged();
         if (os >= 2 && out[0] == 0x09) {
